@@ -346,11 +346,17 @@ func tagsOf(out string) (string, bool) {
 // sameModuloOrder: same outcome and output; the calls made may be ordered differently among
 // directives whose relative order is not fixed (and, on failure, fewer of them may have run)
 func sameModuloOrder(a, b runResult) bool {
-	if a.class != b.class || a.out != b.out {
+	if a.out != b.out {
 		return false
 	}
-	if a.class != "" {
+	if a.class != "" && b.class != "" {
+		// both renders fail at the same point of the output: WHICH of two failing expressions of the last group
+		// (text/raw/insert/replace and dynamic attributes, whose relative order is the written one) is met first is
+		// not fixed by the property
 		return true
+	}
+	if a.class != b.class {
+		return false
 	}
 	x, y := strings.Split(a.log, ","), strings.Split(b.log, ",")
 	sort.Strings(x)
